@@ -149,8 +149,12 @@ func TestC02Builds(t *testing.T) {
 			}
 			desc = append(desc, fmt.Sprintf("session %d: writer=%s %s level %d: %s", s, w, sess.Encoder, sess.Level, strings.Join(bd, "; ")))
 			var resp response
-			if err := child(w).Call(request{Op: "writeraw", DB: base, Iface: "eth0", Sessions: []writeSession{sess}}, &resp, 60*time.Second); err != nil {
+			if err := child(w).Call(request{Op: "writeraw", DB: base, Iface: "eth0", Sessions: []writeSession{sess}}, &resp, 180*time.Second); err != nil {
 				if ce, ok := execpool.IsCrash(err); ok {
+					if ce.Kind == "hang" && !ce.Deadlock {
+						evid.Class("inconclusive:no-answer-within-bound")
+						return
+					}
 					t.Fatalf("%s\n%s", evid.Sig("C02:writer-crash:"+ce.Signature, "writer %s died: %s\n  %s", w, ce.Signature, strings.Join(desc, "\n  ")), ce.Stderr)
 				}
 				t.Fatalf("harness: %v", err)
@@ -174,8 +178,12 @@ func TestC02Builds(t *testing.T) {
 		}
 		for _, r := range cfgs {
 			var resp response
-			if err := child(r).Call(request{Op: "dump", DB: base, Iface: "eth0"}, &resp, 60*time.Second); err != nil {
+			if err := child(r).Call(request{Op: "dump", DB: base, Iface: "eth0"}, &resp, 180*time.Second); err != nil {
 				if ce, ok := execpool.IsCrash(err); ok {
+					if ce.Kind == "hang" && !ce.Deadlock {
+						evid.Class("inconclusive:no-answer-within-bound")
+						return
+					}
 					t.Fatalf("%s\n%s", evid.Sig("C02:reader-crash:"+ce.Signature, "reader %s died: %s\n  %s", r, ce.Signature, strings.Join(desc, "\n  ")), ce.Stderr)
 				}
 				t.Fatalf("harness: %v", err)
